@@ -187,7 +187,8 @@ class ABI:
 
         for read in constraints.reads_registers:
             reg = self.get_register(read)
-            available_scratch_registers.remove(reg)
+            if reg in available_scratch_registers:
+                available_scratch_registers.remove(reg)
 
         if constraints.scratch_registers > len(available_scratch_registers):
             raise ValueError("unable to allocate enough scratch registers")
